@@ -65,6 +65,10 @@ def session(sess, n, t, keys, rootkind, combos):
         outpkp = sess.call("tr_tweak_pkp %s pkp=%s root=%s" % (suite, pkp, root), EXACT, "tr_tweak_pkp")["pkp"]
     if not sess.oracle(a.ok, "Taproot aggregate failed (%s)" % a.raw, rp()):
         return
+    # the same honest shares through aggregate_custom in the other detection modes (whatever the parity of the key handed in)
+    for mode in ("disabled", "all"):
+        am = aggregate(sess, suite, msg, comms, zs, outpkp, mode, EXACT)
+        sess.oracle(am.ok and am.raw == a.raw, "aggregate_custom(%s) on honest Taproot shares: %s (key Y %s)" % (mode, am.raw[:60], parity(pkp_fields(outpkp)["vk"])), rp())
     out = pkp_fields(outpkp)
     if root is not None:
         q = sess.call("bip341_output %s vk=%s root=%s" % (suite, internal, root), EXACT, "bip341_output")
